@@ -696,3 +696,71 @@ def run_system(ctx, label="roots-system"):
         if percls[cls] <= 2:
             ctx.violate(key if not no_input else cls, ("C02/C20 fails on the running server: " if not no_input else "") + what, rep, no_input=no_input)
     return found
+
+
+# ====================================================================================================== C20: mapping "as documented"
+def ref_unit(case):
+    """reference interpreter written from doc/outdated/alias.txt, simple_vhost.txt, evhost.txt: the expected harness output line, or None where
+    the documentation says nothing (malformed hosts, patterns the parser refuses, the traversal guard's 403 is accepted either way)"""
+    t = case.split()
+    d = lambda x: None if x == "~" else unhx(x)
+    if t[0] == "A":
+        base, path = d(t[1]), d(t[2]); n = int(t[3]); al = [(d(t[4 + 2 * i]), d(t[5 + 2 * i])) for i in range(n)]
+        b0 = base[:-1] if base.endswith(b"/") else base
+        if not path or len(path) < len(b0): return ("T", path, base)
+        uri = path[len(b0):]
+        for k, v in al:                                     # "the first rule in order whose pattern matches"
+            if uri.startswith(k): return ("T|403", v + uri[len(k):], v)     # "alias replaces exactly the matched prefix"
+        return ("T", path, base)
+    if t[0] == "V":
+        sroot, host, droot = d(t[1]), d(t[2]), d(t[3])
+        if host is None or droot is None or not sroot.endswith(b"/") or b"/" in host: return None
+        h = host.split(b":")[0]
+        return ("path", sroot + h + b"/" + droot.lstrip(b"/"))         # server-root + hostname + "/" + document-root
+    if t[0] == "E":
+        pat, auth = d(t[1]), d(t[2])
+        host = auth.split(b":")[0]
+        labels = host.split(b".")
+        if not host or auth.startswith(b"[") or any(not re.fullmatch(rb"[A-Za-z0-9\-]+", l) for l in labels) or auth.count(b":") > 1: return None
+        out = b""; i = 0
+        while i < len(pat):
+            c = pat[i:i + 1]
+            if c != b"%": out += c; i += 1; continue
+            nx = pat[i + 1:i + 2]
+            if nx == b"%": out += b"%"; i += 2
+            elif nx == b"_": out += host; i += 2
+            elif nx.isdigit():
+                k = int(nx); i += 2
+                if k == 0: out += b".".join(labels[-2:])
+                elif k <= len(labels): out += labels[-k]
+            elif nx == b"{":
+                m = re.match(rb"%\{(\d)(?:\.(\d))?\}", pat[i:])
+                if not m: return ("X",)
+                k = int(m.group(1)); val = b".".join(labels[-2:]) if k == 0 else (labels[-k] if k <= len(labels) else b"")
+                if m.group(2) is None or m.group(2) == b"0": out += val
+                elif int(m.group(2)) <= len(val): out += val[int(m.group(2)) - 1:int(m.group(2))]
+                i += m.end()
+            else: return ("X",)
+        if out and not out.endswith(b"/"): out += b"/"
+        return ("path", out)
+    return None
+
+
+def monitor_mapping(case, impl_line):
+    try:
+        r = ref_unit(case)
+        if r is None: return None
+        o = impl_line.split()
+        if r[0] == "X":
+            return None if o[0] == "X" else "evhost pattern the documentation does not allow was accepted: %s" % describe_unit(case)
+        if r[0] == "path":
+            if o[0] == "X": return None
+            got = unhx(o[0])
+            return None if got == r[1] else "documented composition gives %r, the code built %r" % (r[1], got)
+        if o[0] == "403": return None if "403" in r[0] else "alias answered 403 where the documentation maps the path"
+        if o[0] == "T":
+            got = (unhx(o[1]), unhx(o[2]))
+            return None if got == (r[1], r[2]) else "documented alias mapping gives %r, the code produced %r" % ((r[1], r[2]), got)
+    except Exception as e:
+        return "harness output malformed (%s): %r" % (type(e).__name__, impl_line[:200])
+    return None
